@@ -1,11 +1,11 @@
 (* C09 - the rollback of NetworkService.__init__ restores the pre-state: disconnecting the interfaces
-   connected so far and removing the service deletes exactly what the constructor added. *)
+   connected so far and removing the service deletes exactly what the constructor added - including a
+   ServicePort that a half-finished connect_interface left on the service ("orphan"). *)
 From Coq Require Import List NArith Bool Lia.
 From FIM Require Import Base.Str Gen.T9Names Model.T9Graph Model.T9Ops Proofs.T9Monad Proofs.T9Simple Proofs.T9Ext.
 Import ListNotations.
 Open Scope N_scope.
 
-(* ---------------------------------------------------------------- facts about the first connection *)
 Lemma NoDup_mid {A} (a b : list A) x : NoDup (a ++ x :: b) -> ~ In x a /\ ~ In x b /\ NoDup (a ++ b).
 Proof.
   intro H. split; [|split].
@@ -22,56 +22,10 @@ Proof.
       with ((ids g ++ [nid nsn]) ++ k_p c :: k_l c :: flat_map (fun c0 => [k_p c0; k_l c0]) cs) in Hnd
       by (rewrite <- app_assoc; reflexivity).
     apply NoDup_mid in Hnd as (_ & _ & Hnd).
-    replace ((ids g ++ [nid nsn]) ++ k_l c :: flat_map (fun c0 => [k_p c0; k_l c0]) cs)
-      with ((ids g ++ [nid nsn]) ++ k_l c :: flat_map (fun c0 => [k_p c0; k_l c0]) cs) in Hnd by reflexivity.
     apply NoDup_mid in Hnd as (_ & _ & Hnd). rewrite <- app_assoc in Hnd. exact Hnd.
   - intros; apply Hcp; right; auto.
   - simpl in Hifs. inversion Hifs; auto.
   - intros; apply Hpeers; right; auto.
-Qed.
-
-Record head_facts (g : graph) (nsn : node) (c : conn) (cs : list conn) : Prop := mkHead {
-  hf_ns : ~ In (nid nsn) (ids g);
-  hf_p : ~ In (k_p c) (ids g);
-  hf_l : ~ In (k_l c) (ids g);
-  hf_i : In (k_i c) (ids g);
-  hf_ns_p : nid nsn <> k_p c;
-  hf_ns_l : nid nsn <> k_l c;
-  hf_p_l : k_p c <> k_l c;
-  hf_rest : forall c', In c' cs ->
-     k_p c' <> nid nsn /\ k_p c' <> k_p c /\ k_p c' <> k_l c /\
-     k_l c' <> nid nsn /\ k_l c' <> k_p c /\ k_l c' <> k_l c /\
-     k_i c' <> k_i c /\ In (k_i c') (ids g) /\ ~ In (k_p c') (ids g) /\ ~ In (k_l c') (ids g) }.
-
-Lemma good_head g nsn c cs : good g nsn (c :: cs) -> head_facts g nsn c cs.
-Proof.
-  intro G. assert (Gt := good_tail _ _ _ _ G). destruct G as [Hnd Hc Hcp Hifs Hpeers].
-  unfold new_ids, conn_ids in Hnd. simpl in Hnd.
-  set (R := flat_map (fun c0 => [k_p c0; k_l c0]) cs) in *.
-  assert (Hnd0 := Hnd).
-  apply NoDup_mid in Hnd as (Hns1 & Hns2 & Hnd1).
-  assert (Hnd1' : NoDup ((ids g) ++ k_p c :: k_l c :: R)) by exact Hnd1.
-  apply NoDup_mid in Hnd1' as (Hp1 & Hp2 & Hnd2).
-  apply NoDup_mid in Hnd2 as (Hl1 & Hl2 & Hnd3).
-  constructor; auto.
-  - eapply has_cls_In. apply Hcp. left; auto.
-  - intro E. apply Hns2. rewrite E. left; auto.
-  - intro E. apply Hns2. rewrite E. right; left; auto.
-  - intro E. apply Hp2. rewrite E. left; auto.
-  - intros c' Hin.
-    assert (Hp' : In (k_p c') R) by (apply conn_ids_In_p; auto).
-    assert (Hl' : In (k_l c') R) by (apply conn_ids_In_l; auto).
-    assert (Hi' : In (k_i c') (ids g)) by (eapply has_cls_In; apply Hcp; right; auto).
-    repeat split; auto.
-    + intro E. apply Hns2. rewrite <- E. right; right; auto.
-    + intro E. apply Hp2. rewrite <- E. right; auto.
-    + intro E. apply Hl2. rewrite <- E. auto.
-    + intro E. apply Hns2. rewrite <- E. right; right; auto.
-    + intro E. apply Hp2. rewrite <- E. right; auto.
-    + intro E. apply Hl2. rewrite <- E. auto.
-    + simpl in Hifs. inversion Hifs; subst. intro E. apply H1. rewrite <- E. apply in_map; auto.
-    + intro Ho. eapply (nodup_app_disj (ids g) R); eauto.
-    + intro Ho. eapply (nodup_app_disj (ids g) R); eauto.
 Qed.
 
 Lemma conns_untouched x ns cs :
@@ -83,68 +37,82 @@ Proof.
   destruct He as [<-|[<-|[<-|[]]]]; simpl; apply orb_false_iff; split; apply N.eqb_neq; auto.
 Qed.
 
+Lemma cls_of_app_old g X e y : In y (ids g) -> cls_of (mkGraph (gnodes g ++ X) e) y = cls_of g y.
+Proof.
+  intro Hin. unfold cls_of, find_nodes; simpl. rewrite filter_app.
+  apply in_map_iff in Hin as [n [He Hin]].
+  destruct (filter (fun n0 => nid n0 =? y) (gnodes g)) as [|m l] eqn:E.
+  - exfalso. assert (In n (filter (fun n0 => nid n0 =? y) (gnodes g))).
+    { apply filter_In; split; auto. apply N.eqb_eq; auto. }
+    rewrite E in H; contradiction.
+  - reflexivity.
+Qed.
+Lemma has_cls_app_old g X e k y : In y (ids g) -> has_cls (mkGraph (gnodes g ++ X) e) k y = has_cls g k y.
+Proof. intro H. unfold has_cls. rewrite cls_of_app_old; auto. Qed.
+
+Lemma filter_nodes_notin (L : list node) x : (forall n, In n L -> nid n <> x) ->
+  filter (fun n => negb (nid n =? x)) L = L.
+Proof. intro H. apply filter_all. intros n Hn. apply negb_true_iff. apply N.eqb_neq. auto. Qed.
+
+(* ---------------------------------------------------------------- the first connection, any tail *)
 Section Head.
-  Variables (g : graph) (nsn : node) (c : conn) (cs : list conn).
-  Hypothesis Hclosed : closed g.
-  Hypothesis G : good g nsn (c :: cs).
-  Let HF := good_head g nsn c cs G.
-  Let E := ext g nsn (c :: cs).
+  Variables (g : graph) (nsn : node) (c : conn) (RN : list node) (RE : list edge).
   Let ns := nid nsn.
   Let p := k_p c.
   Let l := k_l c.
   Let i := k_i c.
+  Let E := mkGraph (gnodes g ++ nsn :: conn_nodes c ++ RN) (gedges g ++ conn_edges ns c ++ RE).
+  Hypothesis Hclosed : closed g.
+  Hypothesis Hnd : NoDup (ids g ++ ns :: p :: l :: map nid RN).
+  Hypothesis Hcls : ncls nsn = cNS.
+  Hypothesis Hcp : has_cls g cCP i = true.
+  Hypothesis Hpeers : peer_cps g i = Ok [].
+  Hypothesis Hup : untouched p RE.
+  Hypothesis Hul : untouched l RE.
+  Hypothesis Hui : untouched i RE.
+  Hypothesis Hulinks : forall l0, In l0 (ids g) -> has_cls g cLink l0 = true -> untouched l0 RE.
 
-  Lemma i_ne_ns : i <> ns. Proof. intro X. apply (hf_ns _ _ _ _ HF). fold ns. rewrite <- X. apply (hf_i _ _ _ _ HF). Qed.
-  Lemma i_ne_p : i <> p. Proof. intro X. apply (hf_p _ _ _ _ HF). fold p. rewrite <- X. apply (hf_i _ _ _ _ HF). Qed.
-  Lemma i_ne_l : i <> l. Proof. intro X. apply (hf_l _ _ _ _ HF). fold l. rewrite <- X. apply (hf_i _ _ _ _ HF). Qed.
-
-  Lemma rest_untouched_p : untouched p (flat_map (conn_edges ns) cs).
+  Lemma hd_facts : ~ In ns (ids g) /\ ~ In p (ids g) /\ ~ In l (ids g) /\ ns <> p /\ ns <> l /\ p <> l /\
+                   (forall n, In n RN -> nid n <> ns /\ nid n <> p /\ nid n <> l).
   Proof.
-    apply conns_untouched.
-    - intro X. apply (hf_ns_p _ _ _ _ HF). auto.
-    - intros c' Hin. destruct (hf_rest _ _ _ _ HF c' Hin) as (A1 & A2 & A3 & A4 & A5 & A6 & A7 & A8 & A9 & A10).
-      repeat split; auto. intro X. apply (hf_p _ _ _ _ HF). fold p. rewrite <- X. auto.
+    assert (H := Hnd). apply NoDup_mid in H as (A1 & A2 & H).
+    assert (H' : NoDup (ids g ++ p :: l :: map nid RN)) by exact H.
+    apply NoDup_mid in H' as (B1 & B2 & H').
+    apply NoDup_mid in H' as (C1 & C2 & H').
+    repeat split; auto.
+    - intro X. apply A2. rewrite X. left; auto.
+    - intro X. apply A2. rewrite X. right; left; auto.
+    - intro X. apply B2. rewrite X. left; auto.
+    - intro X. apply A2. rewrite <- X. right; right. apply in_map; auto.
+    - intro X. apply B2. rewrite <- X. right. apply in_map; auto.
+    - intro X. apply C2. rewrite <- X. apply in_map; auto.
   Qed.
-  Lemma rest_untouched_l : untouched l (flat_map (conn_edges ns) cs).
-  Proof.
-    apply conns_untouched.
-    - intro X. apply (hf_ns_l _ _ _ _ HF). auto.
-    - intros c' Hin. destruct (hf_rest _ _ _ _ HF c' Hin) as (A1 & A2 & A3 & A4 & A5 & A6 & A7 & A8 & A9 & A10).
-      repeat split; auto. intro X. apply (hf_l _ _ _ _ HF). fold l. rewrite <- X. auto.
-  Qed.
-  Lemma rest_untouched_i : untouched i (flat_map (conn_edges ns) cs).
-  Proof.
-    apply conns_untouched.
-    - apply i_ne_ns.
-    - intros c' Hin. destruct (hf_rest _ _ _ _ HF c' Hin) as (A1 & A2 & A3 & A4 & A5 & A6 & A7 & A8 & A9 & A10).
-      repeat split; auto.
-      + intro X. apply A9. rewrite X. apply (hf_i _ _ _ _ HF).
-      + intro X. apply A10. rewrite X. apply (hf_i _ _ _ _ HF).
-  Qed.
+  Lemma hf_i' : In i (ids g). Proof. eapply has_cls_In; eauto. Qed.
+  Lemma i_ne_ns : i <> ns. Proof. intro X. apply (proj1 hd_facts). rewrite <- X. apply hf_i'. Qed.
+  Lemma i_ne_p : i <> p. Proof. intro X. apply (proj1 (proj2 hd_facts)). rewrite <- X. apply hf_i'. Qed.
+  Lemma i_ne_l : i <> l. Proof. intro X. apply (proj1 (proj2 (proj2 hd_facts))). rewrite <- X. apply hf_i'. Qed.
+  Lemma ns_ne_p : ns <> p. Proof. destruct hd_facts as (_&_&_&H&_). exact H. Qed.
+  Lemma ns_ne_l : ns <> l. Proof. destruct hd_facts as (_&_&_&_&H&_). exact H. Qed.
+  Lemma p_ne_l : p <> l. Proof. destruct hd_facts as (_&_&_&_&_&H&_). exact H. Qed.
 
   Lemma g_untouched_p : untouched p (gedges g).
-  Proof. apply closed_untouched; auto. apply (hf_p _ _ _ _ HF). Qed.
+  Proof. apply closed_untouched; auto. destruct hd_facts as (_&H&_). exact H. Qed.
   Lemma g_untouched_l : untouched l (gedges g).
-  Proof. apply closed_untouched; auto. apply (hf_l _ _ _ _ HF). Qed.
+  Proof. apply closed_untouched; auto. destruct hd_facts as (_&_&H&_). exact H. Qed.
 
-  Lemma E_edges : gedges E = gedges g ++ conn_edges ns c ++ flat_map (conn_edges ns) cs.
-  Proof. reflexivity. Qed.
-
-  Lemma adj_rel_E x r : adj_rel E x r = adj_es (gedges g) x r ++ adj_es (conn_edges ns c) x r
-                                        ++ adj_es (flat_map (conn_edges ns) cs) x r.
-  Proof. unfold adj_rel. fold (adj_es (gedges E) x r). rewrite E_edges, !adj_es_app. reflexivity. Qed.
-  Lemma adj_any_E x : adj_any E x = adj_any_es (gedges g) x ++ adj_any_es (conn_edges ns c) x
-                                    ++ adj_any_es (flat_map (conn_edges ns) cs) x.
-  Proof. unfold adj_any. fold (adj_any_es (gedges E) x). rewrite E_edges, !adj_any_es_app. reflexivity. Qed.
+  Lemma adj_rel_E x r : adj_rel E x r = adj_es (gedges g) x r ++ adj_es (conn_edges ns c) x r ++ adj_es RE x r.
+  Proof. unfold adj_rel, adj_es, E. cbn [gedges]. rewrite !flat_map_app. reflexivity. Qed.
+  Lemma adj_any_E x : adj_any E x = adj_any_es (gedges g) x ++ adj_any_es (conn_edges ns c) x ++ adj_any_es RE x.
+  Proof. unfold adj_any, adj_any_es, E. cbn [gedges]. rewrite !flat_map_app. reflexivity. Qed.
 
   Ltac eqbs :=
     repeat first [ rewrite N.eqb_refl
-                 | rewrite (neqb_of_neq ns p) by (apply (hf_ns_p _ _ _ _ HF))
-                 | rewrite (neqb_of_neq ns l) by (apply (hf_ns_l _ _ _ _ HF))
-                 | rewrite (neqb_of_neq p l) by (apply (hf_p_l _ _ _ _ HF))
-                 | rewrite (neqb_of_neq l p) by (intro X; apply (hf_p_l _ _ _ _ HF); auto)
-                 | rewrite (neqb_of_neq p ns) by (intro X; apply (hf_ns_p _ _ _ _ HF); auto)
-                 | rewrite (neqb_of_neq l ns) by (intro X; apply (hf_ns_l _ _ _ _ HF); auto)
+                 | rewrite (neqb_of_neq ns p) by apply ns_ne_p
+                 | rewrite (neqb_of_neq ns l) by apply ns_ne_l
+                 | rewrite (neqb_of_neq p l) by apply p_ne_l
+                 | rewrite (neqb_of_neq l p) by (intro X; apply p_ne_l; auto)
+                 | rewrite (neqb_of_neq p ns) by (intro X; apply ns_ne_p; auto)
+                 | rewrite (neqb_of_neq l ns) by (intro X; apply ns_ne_l; auto)
                  | rewrite (neqb_of_neq i p) by apply i_ne_p
                  | rewrite (neqb_of_neq i l) by apply i_ne_l
                  | rewrite (neqb_of_neq i ns) by apply i_ne_ns
@@ -154,58 +122,52 @@ Section Head.
 
   Lemma adj_p : adj_rel E p rConnects = [ns; l].
   Proof.
-    rewrite adj_rel_E. rewrite (adj_es_untouched _ _ _ g_untouched_p), (adj_es_untouched _ _ _ rest_untouched_p).
+    rewrite adj_rel_E. rewrite (adj_es_untouched _ _ _ g_untouched_p), (adj_es_untouched _ _ _ Hup).
     unfold adj_es, conn_edges, other_end; simpl. fold ns p l i. eqbs. reflexivity.
   Qed.
   Lemma adj_l : adj_rel E l rConnects = [i; p].
   Proof.
-    rewrite adj_rel_E. rewrite (adj_es_untouched _ _ _ g_untouched_l), (adj_es_untouched _ _ _ rest_untouched_l).
+    rewrite adj_rel_E. rewrite (adj_es_untouched _ _ _ g_untouched_l), (adj_es_untouched _ _ _ Hul).
     unfold adj_es, conn_edges, other_end; simpl. fold ns p l i. eqbs. reflexivity.
   Qed.
   Lemma adj_any_l : adj_any E l = [i; p].
   Proof.
-    rewrite adj_any_E. rewrite (adj_any_es_untouched _ _ g_untouched_l), (adj_any_es_untouched _ _ rest_untouched_l).
+    rewrite adj_any_E. rewrite (adj_any_es_untouched _ _ g_untouched_l), (adj_any_es_untouched _ _ Hul).
     unfold adj_any_es, conn_edges, other_end; simpl. fold ns p l i. eqbs. reflexivity.
   Qed.
   Lemma adj_i : adj_rel E i rConnects = adj_rel g i rConnects ++ [l].
   Proof.
-    rewrite adj_rel_E. rewrite (adj_es_untouched _ _ _ rest_untouched_i).
+    rewrite adj_rel_E. rewrite (adj_es_untouched _ _ _ Hui).
     unfold adj_es at 2. unfold conn_edges, other_end; simpl. fold ns p l i. eqbs. rewrite app_nil_r. reflexivity.
   Qed.
 
-  Lemma nodupE : NoDup (ids g ++ new_ids nsn (c :: cs)).
-  Proof. apply (gd_nodup _ _ _ G). Qed.
+  Let pnode := mkNode (k_p c) cCP (k_pname c) tServicePort 0.
+  Let lnode := mkNode (k_l c) cLink (k_pname c ++ suffix_link) (k_lty c) 0.
+
+  Lemma nodupE : NoDup (ids E).
+  Proof. unfold ids, E; simpl. rewrite map_app. simpl. exact Hnd. Qed.
+
+  Lemma find_in_E n : In n (gnodes E) -> find_nodes E (nid n) = [n].
+  Proof. intro H. unfold find_nodes. apply find_nodes_unique; auto. apply nodupE. Qed.
+  Lemma In_E_ns : In nsn (gnodes E). Proof. unfold E; simpl. apply in_app_iff. right. left. auto. Qed.
+  Lemma In_E_pn : In pnode (gnodes E). Proof. unfold E; simpl. apply in_app_iff. right. right. left. auto. Qed.
+  Lemma In_E_ln : In lnode (gnodes E). Proof. unfold E; simpl. apply in_app_iff. right. right. right. left. auto. Qed.
 
   Lemma cls_ns : cls_of E ns = Some cNS.
-  Proof.
-    unfold E, ns. rewrite (cls_of_ext_new g nsn (c :: cs) nsn nodupE) by (left; auto).
-    rewrite (gd_cls _ _ _ G). reflexivity.
-  Qed.
+  Proof. unfold cls_of, ns. rewrite (find_in_E nsn In_E_ns). rewrite Hcls. reflexivity. Qed.
   Lemma cls_p : cls_of E p = Some cCP.
-  Proof.
-    unfold E, p.
-    apply (cls_of_ext_new g nsn (c :: cs) (mkNode (k_p c) cCP (k_pname c) tServicePort 0) nodupE).
-    right. apply conn_p_node. left; auto.
-  Qed.
+  Proof. unfold cls_of. assert (H := find_in_E pnode In_E_pn). simpl in H. fold p in H. rewrite H. reflexivity. Qed.
   Lemma cls_l : cls_of E l = Some cLink.
-  Proof.
-    unfold E, l.
-    apply (cls_of_ext_new g nsn (c :: cs) (mkNode (k_l c) cLink (k_pname c ++ suffix_link) (k_lty c) 0) nodupE).
-    right. apply conn_l_node. left; auto.
-  Qed.
+  Proof. unfold cls_of. assert (H := find_in_E lnode In_E_ln). simpl in H. fold l in H. rewrite H. reflexivity. Qed.
   Lemma cls_i : has_cls E cCP i = true.
-  Proof. unfold E. rewrite has_cls_ext_old by (apply (hf_i _ _ _ _ HF)). apply (gd_cp _ _ _ G). left; auto. Qed.
+  Proof. unfold E. rewrite has_cls_app_old by apply hf_i'. exact Hcp. Qed.
 
   Lemma find_E x : In x (ids E) -> exists n, find_node E x = Ok n.
-  Proof.
-    intro H. destruct (In_ids_find E x) as [n [Hn _]]; eauto. unfold E. rewrite ids_ext. apply nodupE.
-  Qed.
-  Lemma In_E_p : In p (ids E).
-  Proof. unfold E. rewrite ids_ext. apply in_app_iff. right. right. left. reflexivity. Qed.
-  Lemma In_E_l : In l (ids E).
-  Proof. unfold E. rewrite ids_ext. apply in_app_iff. right. right. right. left. reflexivity. Qed.
+  Proof. intro H. destruct (In_ids_find E x nodupE H) as [n [Hn _]]; eauto. Qed.
+  Lemma In_E_p : In p (ids E). Proof. apply in_map_iff. exists pnode. split; auto. apply In_E_pn. Qed.
+  Lemma In_E_l : In l (ids E). Proof. apply in_map_iff. exists lnode. split; auto. apply In_E_ln. Qed.
   Lemma In_E_i : In i (ids E).
-  Proof. unfold E. rewrite ids_ext. apply in_app_iff. left. apply (hf_i _ _ _ _ HF). Qed.
+  Proof. unfold ids, E; simpl. rewrite map_app. apply in_app_iff. left. apply hf_i'. Qed.
 
   (* D1: the peers of the first connected interface are exactly its ServicePort *)
   Lemma peers_head : peer_cps E i = Ok [p].
@@ -217,38 +179,31 @@ Section Head.
     rewrite adj_any_l. simpl. rewrite cls_i.
     assert (Hp : has_cls E cCP p = true) by (unfold has_cls; rewrite cls_p; reflexivity).
     rewrite Hp. simpl. fold ns p l i. eqbs.
-    (* the links i already had in g contribute nothing, as in g *)
     assert (Hold : flat_map (fun l0 => remove_N i (filter (has_cls E cCP) (adj_any E l0)))
                      (filter (has_cls E cLink) (adj_rel g i rConnects)) = []).
-    { assert (Hg := gd_peers _ _ _ G c (or_introl eq_refl)). fold i in Hg.
+    { assert (Hg := Hpeers).
       unfold peer_cps in Hg. destruct (find_node g i); [|discriminate]. injection Hg as Hg'.
       etransitivity; [|exact Hg'].
       rewrite (filter_ext_in' (has_cls E cLink) (has_cls g cLink)).
-      2:{ intros y Hy. unfold E. apply has_cls_ext_old. eapply adj_in_closed; eauto. }
+      2:{ intros y Hy. unfold E. apply has_cls_app_old. eapply adj_in_closed; eauto. }
       apply flat_map_ext_in. intros l0 Hl0. apply filter_In in Hl0 as [Hl0 Hcl0].
       assert (Hin0 : In l0 (ids g)) by (eapply adj_in_closed; eauto).
       f_equal.
-      (* adj_any E l0 = adj_any g l0: no new edge touches a Link node of g *)
       assert (Hadj : adj_any E l0 = adj_any g l0).
       { rewrite adj_any_E.
-        assert (U1 : untouched l0 (conn_edges ns c ++ flat_map (conn_edges ns) cs)).
-        { change (conn_edges ns c ++ flat_map (conn_edges ns) cs) with (flat_map (conn_edges ns) (c :: cs)).
-          apply conns_untouched.
-          - intro X. apply (hf_ns _ _ _ _ HF). fold ns. rewrite <- X. auto.
-          - intros c' Hc'.
-            assert (Hcp' : has_cls g cCP (k_i c') = true) by (apply (gd_cp _ _ _ G); auto).
-            assert (Hnew : ~ In (k_p c') (ids g) /\ ~ In (k_l c') (ids g)).
-            { destruct Hc' as [<-|Hc']; [split; [apply (hf_p _ _ _ _ HF)|apply (hf_l _ _ _ _ HF)]|].
-              destruct (hf_rest _ _ _ _ HF c' Hc') as (_ & _ & _ & _ & _ & _ & _ & _ & A9 & A10). auto. }
-            destruct Hnew as [N1 N2].
-            repeat split.
-            + intro X. apply N1. rewrite X. auto.
-            + intro X. apply N2. rewrite X. auto.
-            + intro X. rewrite X in Hcp'. unfold has_cls in Hcp', Hcl0.
-              destruct (cls_of g l0); [|discriminate].
-              apply N.eqb_eq in Hcp'. apply N.eqb_eq in Hcl0. subst. discriminate. }
-        rewrite <- adj_any_es_app. rewrite (adj_any_es_untouched _ _ U1). rewrite app_nil_r. reflexivity. }
-      rewrite Hadj. apply filter_ext_in'. intros y Hy. unfold E. apply has_cls_ext_old.
+        assert (U1 : untouched l0 (conn_edges ns c)).
+        { assert (N1 : l0 <> ns) by (intro X; apply (proj1 hd_facts); rewrite <- X; auto).
+          assert (N2 : l0 <> p) by (intro X; apply (proj1 (proj2 hd_facts)); rewrite <- X; auto).
+          assert (N3 : l0 <> l) by (intro X; apply (proj1 (proj2 (proj2 hd_facts))); rewrite <- X; auto).
+          assert (N4 : l0 <> i).
+          { intro X. assert (Hcp' := Hcp). rewrite <- X in Hcp'. unfold has_cls in Hcp', Hcl0.
+            destruct (cls_of g l0); [|discriminate].
+            apply N.eqb_eq in Hcp'. apply N.eqb_eq in Hcl0. subst. discriminate. }
+          intros e He. simpl in He. unfold touches.
+          destruct He as [<-|[<-|[<-|[]]]]; simpl; fold ns p l i; apply orb_false_iff; split; apply N.eqb_neq; auto. }
+        rewrite (adj_any_es_untouched _ _ U1). rewrite (adj_any_es_untouched _ _ (Hulinks l0 Hin0 Hcl0)).
+        rewrite app_nil_r. reflexivity. }
+      rewrite Hadj. apply filter_ext_in'. intros y Hy. unfold E. apply has_cls_app_old.
       eapply adj_any_in_closed; eauto. }
     rewrite Hold. reflexivity.
   Qed.
@@ -269,64 +224,47 @@ Section Head.
     rewrite cls_i. unfold has_cls. rewrite cls_p. reflexivity.
   Qed.
 
-  Lemma filter_nodes_notin (L : list node) x : (forall n, In n L -> nid n <> x) ->
-    filter (fun n => negb (nid n =? x)) L = L.
-  Proof. intro H. apply filter_all. intros n Hn. apply negb_true_iff. apply N.eqb_neq. auto. Qed.
-
-  Lemma rest_nodes_ne x : (forall c', In c' cs -> k_p c' <> x /\ k_l c' <> x) ->
-    forall n, In n (flat_map conn_nodes cs) -> nid n <> x.
-  Proof.
-    intros H n Hn. apply in_flat_map in Hn as [c' [Hc' Hn]]. destruct (H c' Hc') as [A B].
-    simpl in Hn. destruct Hn as [<-|[<-|[]]]; simpl; auto.
-  Qed.
-
-  Let pnode := mkNode (k_p c) cCP (k_pname c) tServicePort 0.
-  Let lnode := mkNode (k_l c) cLink (k_pname c ++ suffix_link) (k_lty c) 0.
-  Let E1 := mkGraph (gnodes g ++ nsn :: lnode :: flat_map conn_nodes cs)
-                    (gedges g ++ mkEdge l i rConnects :: flat_map (conn_edges ns) cs).
+  Let E1 := mkGraph (gnodes g ++ nsn :: lnode :: RN) (gedges g ++ mkEdge l i rConnects :: RE).
+  Let E2 := mkGraph (gnodes g ++ nsn :: RN) (gedges g ++ RE).
 
   Lemma E_minus_p : remove_node_raw p E = E1.
   Proof.
-    unfold remove_node_raw, E, ext, E1. simpl. f_equal.
+    unfold remove_node_raw, E, E1. simpl. f_equal.
     - rewrite filter_app. simpl. fold ns p l i. eqbs. simpl.
-      rewrite filter_nodes_notin by (intros n Hn X; apply (hf_p _ _ _ _ HF); fold p; rewrite <- X; apply in_map; auto).
+      rewrite filter_nodes_notin
+        by (intros n Hn X; apply (proj1 (proj2 hd_facts)); rewrite <- X; apply in_map; auto).
       f_equal. f_equal. f_equal.
-      apply filter_nodes_notin. apply rest_nodes_ne. intros c' Hc'.
-      destruct (hf_rest _ _ _ _ HF c' Hc') as (A1 & A2 & A3 & A4 & A5 & A6 & _). split; auto.
+      apply filter_nodes_notin. intros n Hn. apply (proj2 (proj2 (proj2 (proj2 (proj2 (proj2 hd_facts))))) n Hn).
     - rewrite filter_app. rewrite (filter_untouched _ _ g_untouched_p). f_equal.
       simpl. unfold touches; simpl. fold ns p l i. eqbs. simpl.
-      f_equal. apply (filter_untouched _ _ rest_untouched_p).
+      f_equal. apply (filter_untouched _ _ Hup).
   Qed.
 
-  Lemma E1_minus_l : remove_node_raw l E1 = ext g nsn cs.
+  Lemma E1_minus_l : remove_node_raw l E1 = E2.
   Proof.
-    unfold remove_node_raw, ext, E1. simpl. f_equal.
+    unfold remove_node_raw, E2, E1. simpl. f_equal.
     - rewrite filter_app. simpl. fold ns p l i. eqbs. simpl.
-      rewrite filter_nodes_notin by (intros n Hn X; apply (hf_l _ _ _ _ HF); fold l; rewrite <- X; apply in_map; auto).
+      rewrite filter_nodes_notin
+        by (intros n Hn X; apply (proj1 (proj2 (proj2 hd_facts))); rewrite <- X; apply in_map; auto).
       f_equal. f_equal.
-      apply filter_nodes_notin. apply rest_nodes_ne. intros c' Hc'.
-      destruct (hf_rest _ _ _ _ HF c' Hc') as (A1 & A2 & A3 & A4 & A5 & A6 & _). split; auto.
+      apply filter_nodes_notin. intros n Hn. apply (proj2 (proj2 (proj2 (proj2 (proj2 (proj2 hd_facts))))) n Hn).
     - rewrite filter_app. rewrite (filter_untouched _ _ g_untouched_l). f_equal.
       simpl. unfold touches; simpl. fold ns p l i. eqbs. simpl.
-      apply (filter_untouched _ _ rest_untouched_l).
+      apply (filter_untouched _ _ Hul).
   Qed.
 
   Lemma find_E1_l : exists n, find_node E1 l = Ok n.
   Proof.
     exists lnode. apply (find_node_unique E1 lnode).
     - unfold ids, E1; simpl. rewrite map_app. simpl.
-      assert (H := nodupE). unfold new_ids, conn_ids in H. simpl in H.
-      replace (ids g ++ nid nsn :: k_p c :: k_l c :: flat_map (fun c0 => [k_p c0; k_l c0]) cs)
-        with ((ids g ++ [nid nsn]) ++ k_p c :: k_l c :: flat_map (fun c0 => [k_p c0; k_l c0]) cs) in H
+      assert (H := Hnd).
+      replace (ids g ++ ns :: p :: l :: map nid RN) with ((ids g ++ [ns]) ++ p :: l :: map nid RN) in H
         by (rewrite <- app_assoc; reflexivity).
-      apply NoDup_mid in H as (_ & _ & H). rewrite <- app_assoc in H. simpl in H.
-      replace (map nid (flat_map conn_nodes cs)) with (flat_map (fun c0 => [k_p c0; k_l c0]) cs); [exact H|].
-      clear. induction cs as [|c0 cs0 IH]; simpl; auto. f_equal. f_equal. auto.
+      apply NoDup_mid in H as (_ & _ & H). rewrite <- app_assoc in H. exact H.
     - unfold E1; simpl. apply in_app_iff. right. right. left. reflexivity.
   Qed.
 
-  (* D2: removing the ServicePort deletes it and the Link, nothing else *)
-  Lemma remove_cp_head fr : remove_cp_and_links p (mkSt E fr) = (mkSt (ext g nsn cs) fr, Ok tt).
+  Lemma remove_cp_head fr : remove_cp_and_links p (mkSt E fr) = (mkSt E2 fr, Ok tt).
   Proof.
     unfold remove_cp_and_links, bind, ask. simpl sg.
     rewrite fn_p_cp. simpl. rewrite fn_p_link. rewrite fn_l_cp. simpl.
@@ -338,16 +276,10 @@ Section Head.
 
   Lemma p_is_service_port : is_service_port E p = true.
   Proof.
-    unfold is_service_port.
-    assert (H : find_nodes E p = [pnode]).
-    { unfold find_nodes. apply (find_nodes_unique (gnodes E) pnode).
-      - fold (ids E). unfold E. rewrite ids_ext. apply nodupE.
-      - unfold E, ext; simpl. apply in_app_iff. right. right. left. reflexivity. }
-    rewrite H. reflexivity.
+    unfold is_service_port. assert (H := find_in_E pnode In_E_pn). simpl in H. fold p in H. rewrite H. reflexivity.
   Qed.
 
-  Lemma disconnect_head fr :
-    disconnect_interface (k_if c) (mkSt E fr) = (mkSt (ext g nsn cs) fr, Ok tt).
+  Lemma disconnect_head fr : disconnect_interface (k_if c) (mkSt E fr) = (mkSt E2 fr, Ok tt).
   Proof.
     unfold disconnect_interface, bind, ask. simpl sg. fold (k_i c). fold i. rewrite peers_head.
     unfold filter.
@@ -356,41 +288,177 @@ Section Head.
   Qed.
 End Head.
 
-(* ---------------------------------------------------------------- the handler restores the pre-state *)
-Lemma ext_nil_remove g nsn fr : closed g -> good g nsn [] ->
-  remove_ns_with_cps_and_links (nid nsn) (mkSt (ext g nsn []) fr) = (mkSt g fr, Ok tt).
+(* ---------------------------------------------------------------- the extended graph with orphan ports *)
+Definition orphan_edge (ns : N) (o : node) : edge := mkEdge ns (nid o) rConnects.
+Definition tail_nodes (cs : list conn) (os : list node) : list node := flat_map conn_nodes cs ++ os.
+Definition tail_edges (ns : N) (cs : list conn) (os : list node) : list edge :=
+  flat_map (conn_edges ns) cs ++ map (orphan_edge ns) os.
+Definition extO (g : graph) (nsn : node) (cs : list conn) (os : list node) : graph :=
+  mkGraph (gnodes g ++ nsn :: tail_nodes cs os) (gedges g ++ tail_edges (nid nsn) cs os).
+
+Lemma extO_nil g nsn cs : extO g nsn cs [] = ext g nsn cs.
+Proof. unfold extO, ext, tail_nodes, tail_edges. simpl. rewrite !app_nil_r. reflexivity. Qed.
+
+Record goodO (g : graph) (nsn : node) (cs : list conn) (os : list node) : Prop := mkGoodO {
+  go_good : good g nsn cs;
+  go_nodup : NoDup (ids g ++ new_ids nsn cs ++ map nid os);
+  go_cls : forall o, In o os -> ncls o = cCP }.
+
+Lemma goodO_tail g nsn c cs os : goodO g nsn (c :: cs) os -> goodO g nsn cs os.
 Proof.
-  intros Hc G.
-  assert (Hnd : NoDup (ids (ext g nsn []))) by (rewrite ids_ext; apply (gd_nodup _ _ _ G)).
-  assert (Hns : ~ In (nid nsn) (ids g)).
-  { apply (good_new_not_old g nsn [] (nid nsn) G). left; reflexivity. }
-  assert (Hfind : find_node (ext g nsn []) (nid nsn) = Ok nsn).
-  { apply find_node_unique; auto. unfold ext; simpl. apply in_app_iff. right. left. reflexivity. }
-  assert (Hunt : untouched (nid nsn) (gedges (ext g nsn []))).
-  { unfold ext; simpl. rewrite app_nil_r. apply closed_untouched; auto. }
-  unfold remove_ns_with_cps_and_links, bind, ask. simpl sg.
-  unfold node_cls. rewrite Hfind. rewrite (gd_cls _ _ _ G). simpl.
-  unfold first_neighbor. rewrite Hfind.
-  unfold adj_rel. fold (adj_es (gedges (ext g nsn [])) (nid nsn) rConnects).
-  rewrite (adj_es_untouched _ _ _ Hunt). simpl.
-  unfold m_delete_node, mutate, g_delete_node. simpl sg. rewrite Hfind.
-  unfold bind, ret. f_equal. f_equal.
-  unfold remove_node_raw. rewrite (filter_untouched _ _ Hunt).
-  unfold ext; simpl. rewrite filter_app. simpl. rewrite N.eqb_refl. simpl.
-  rewrite !app_nil_r.
-  rewrite filter_all.
-  - destruct g; reflexivity.
-  - intros n Hn. apply negb_true_iff. apply N.eqb_neq. intro X. apply Hns. rewrite <- X. apply in_map; auto.
+  intros [G Hnd Hc]. constructor; auto; [eapply good_tail; eauto|].
+  unfold new_ids, conn_ids in *. simpl in Hnd.
+  replace (ids g ++ nid nsn :: k_p c :: k_l c :: flat_map (fun c0 => [k_p c0; k_l c0]) cs ++ map nid os)
+    with ((ids g ++ [nid nsn]) ++ k_p c :: k_l c :: flat_map (fun c0 => [k_p c0; k_l c0]) cs ++ map nid os) in Hnd
+    by (rewrite <- app_assoc; reflexivity).
+  apply NoDup_mid in Hnd as (_ & _ & Hnd).
+  apply NoDup_mid in Hnd as (_ & _ & Hnd). rewrite <- app_assoc in Hnd. exact Hnd.
 Qed.
 
-Lemma rollback_restores g nsn cs fr : closed g -> good g nsn cs ->
-  (for_each (map k_if cs) disconnect_interface ;;;
-   remove_ns_with_cps_and_links (nid nsn) ;;; @raise unit ETopology) (mkSt (ext g nsn cs) fr)
-  = (mkSt g fr, Err ETopology).
+Lemma map_nid_conn_nodes cs : map nid (flat_map conn_nodes cs) = conn_ids cs.
+Proof. unfold conn_ids. induction cs as [|c cs IH]; simpl; auto. f_equal. f_equal. auto. Qed.
+
+Lemma orphans_untouched x ns os : x <> ns -> ~ In x (map nid os) -> untouched x (map (orphan_edge ns) os).
 Proof.
-  intros Hc. induction cs as [|c cs IH]; intro G.
-  - simpl. unfold bind at 1. unfold ret at 1. unfold bind. rewrite ext_nil_remove; auto.
+  intros Hns Hx e He. apply in_map_iff in He as [o [<- Ho]]. unfold touches, orphan_edge; simpl.
+  apply orb_false_iff; split; apply N.eqb_neq; auto. intro X. apply Hx. rewrite <- X. apply in_map; auto.
+Qed.
+
+(* the head connection of a good extended graph can be disconnected *)
+Lemma disconnect_headO g nsn c cs os fr : closed g -> goodO g nsn (c :: cs) os ->
+  disconnect_interface (k_if c) (mkSt (extO g nsn (c :: cs) os) fr) = (mkSt (extO g nsn cs os) fr, Ok tt).
+Proof.
+  intros Hcl GO. destruct GO as [G Hnd Hcls].
+  assert (E1 : extO g nsn (c :: cs) os =
+               mkGraph (gnodes g ++ nsn :: conn_nodes c ++ tail_nodes cs os)
+                       (gedges g ++ conn_edges (nid nsn) c ++ tail_edges (nid nsn) cs os)).
+  { unfold extO, tail_nodes, tail_edges. cbn [flat_map]. rewrite <- !app_assoc. reflexivity. }
+  rewrite E1.
+  assert (Hnd' : NoDup (ids g ++ nid nsn :: k_p c :: k_l c :: map nid (tail_nodes cs os))).
+  { unfold tail_nodes. rewrite map_app, map_nid_conn_nodes.
+    unfold new_ids, conn_ids in Hnd. simpl in Hnd. exact Hnd. }
+  assert (Hall : forall x, In x (nid nsn :: k_p c :: k_l c :: conn_ids cs ++ map nid os) -> ~ In x (ids g)).
+  { intros x Hx Ho. eapply (nodup_app_disj (ids g)); [exact Hnd| exact Ho|].
+    unfold new_ids, conn_ids. simpl. exact Hx. }
+  assert (Hsplit := Hnd'). apply NoDup_mid in Hsplit as (_ & A2 & Hs1).
+  assert (Hs1' : NoDup (ids g ++ k_p c :: k_l c :: map nid (tail_nodes cs os))) by exact Hs1.
+  apply NoDup_mid in Hs1' as (_ & B2 & Hs2). apply NoDup_mid in Hs2 as (_ & C2 & _).
+  unfold tail_nodes in A2, B2, C2. rewrite map_app, map_nid_conn_nodes in A2, B2, C2.
+  assert (Hi : In (k_i c) (ids g)) by (eapply good_i_old; eauto; left; auto).
+  (* untouched facts for x in {p, l, i} and for old Link nodes *)
+  assert (Hunt : forall x, x <> nid nsn -> ~ In x (conn_ids cs ++ map nid os) ->
+                           (forall c', In c' cs -> k_i c' <> x) ->
+                           untouched x (tail_edges (nid nsn) cs os)).
+  { intros x Hns Hx Hxi. unfold tail_edges. apply untouched_app.
+    - apply conns_untouched; auto. intros c' Hc'. repeat split.
+      + intro X. apply Hx. apply in_app_iff. left. rewrite <- X. apply conn_ids_In_p; auto.
+      + intro X. apply Hx. apply in_app_iff. left. rewrite <- X. apply conn_ids_In_l; auto.
+      + auto.
+    - apply orphans_untouched; auto. intro X. apply Hx. apply in_app_iff. right; auto. }
+  assert (Hci : forall c', In c' cs -> In (k_i c') (ids g)).
+  { intros c' Hc'. eapply good_i_old; eauto. right; auto. }
+  apply (disconnect_head g nsn c (tail_nodes cs os) (tail_edges (nid nsn) cs os)); auto.
+  - apply (gd_cls _ _ _ G).
+  - apply (gd_cp _ _ _ G). left; auto.
+  - apply (gd_peers _ _ _ G). left; auto.
+  - apply Hunt.
+    + intro X. apply A2. rewrite <- X. left; auto.
+    + intro X. apply B2. right. exact X.
+    + intros c' Hc' X. apply (Hall (k_p c)); [right; left; auto|]. rewrite <- X. auto.
+  - apply Hunt.
+    + intro X. apply A2. rewrite <- X. right; left; auto.
+    + exact C2.
+    + intros c' Hc' X. apply (Hall (k_l c)); [right; right; left; auto|]. rewrite <- X. auto.
+  - apply Hunt.
+    + intro X. apply (Hall (nid nsn)); [left; auto|]. rewrite <- X. exact Hi.
+    + intro X. apply (Hall (k_i c)); [right; right; right; exact X|exact Hi].
+    + intros c' Hc' X. assert (Hifs := gd_ifs _ _ _ G). simpl in Hifs. inversion Hifs; subst.
+      apply H1. rewrite <- X. apply in_map; auto.
+  - intros l0 Hl0 Hcl0. apply Hunt.
+    + intro X. apply (Hall (nid nsn)); [left; auto|]. rewrite <- X. exact Hl0.
+    + intro X. apply (Hall l0); [right; right; right; exact X|exact Hl0].
+    + intros c' Hc' X. assert (Hcp' := gd_cp _ _ _ G c' (or_intror Hc')). rewrite X in Hcp'.
+      unfold has_cls in Hcp', Hcl0. destruct (cls_of g l0); [|discriminate].
+      apply N.eqb_eq in Hcp'. apply N.eqb_eq in Hcl0. subst. discriminate.
+Qed.
+
+(* ---------------------------------------------------------------- removing isolated fresh ports *)
+Lemma remove_isolated g : closed g -> forall (os : list node) fr,
+  NoDup (ids g ++ map nid os) ->
+  for_each (map nid os) remove_cp_and_links (mkSt (mkGraph (gnodes g ++ os) (gedges g)) fr) = (mkSt g fr, Ok tt).
+Proof.
+  intros Hcl. induction os as [|o os IH]; intros fr Hnd.
+  - simpl. rewrite app_nil_r. destruct g; reflexivity.
+  - simpl map. simpl for_each. unfold bind at 1.
+    set (G := mkGraph (gnodes g ++ o :: os) (gedges g)).
+    assert (HndG : NoDup (ids G)) by (unfold ids, G; simpl; rewrite map_app; exact Hnd).
+    assert (Hfind : find_node G (nid o) = Ok o).
+    { apply find_node_unique; auto. unfold G; simpl. apply in_app_iff. right. left. auto. }
+    assert (Hnew : ~ In (nid o) (ids g)) by (apply NoDup_mid in Hnd as (A & _ & _); exact A).
+    assert (Hunt : untouched (nid o) (gedges G)) by (unfold G; simpl; apply closed_untouched; auto).
+    assert (Hfn : forall k, first_neighbor G (nid o) rConnects k = Ok []).
+    { intro k. unfold first_neighbor. rewrite Hfind. unfold adj_rel.
+      fold (adj_es (gedges G) (nid o) rConnects). rewrite (adj_es_untouched _ _ _ Hunt). reflexivity. }
+    assert (Hrm : remove_cp_and_links (nid o) (mkSt G fr) = (mkSt (mkGraph (gnodes g ++ os) (gedges g)) fr, Ok tt)).
+    { unfold remove_cp_and_links, bind, ask. simpl sg. rewrite Hfn. simpl. rewrite Hfn. simpl.
+      unfold bind, m_delete_node, mutate, g_delete_node. simpl sg. rewrite Hfind.
+      unfold ret. f_equal. f_equal. unfold remove_node_raw. rewrite (filter_untouched _ _ Hunt).
+      unfold G; simpl. f_equal. rewrite filter_app. simpl. rewrite N.eqb_refl. simpl.
+      apply NoDup_mid in Hnd as (A & B & _).
+      rewrite filter_nodes_notin by (intros n Hn X; apply A; rewrite <- X; apply in_map; auto).
+      f_equal. apply filter_nodes_notin. intros n Hn X. apply B. rewrite <- X. apply in_map; auto. }
+    rewrite Hrm. apply IH. apply NoDup_mid in Hnd as (_ & _ & H). exact H.
+Qed.
+
+(* the service with no connection left, only orphan ports: removing it restores g *)
+Lemma remove_ns_orphans g nsn os fr : closed g -> goodO g nsn [] os ->
+  remove_ns_with_cps_and_links (nid nsn) (mkSt (extO g nsn [] os) fr) = (mkSt g fr, Ok tt).
+Proof.
+  intros Hcl [G Hnd Hcls].
+  set (E := extO g nsn [] os).
+  assert (HE : E = mkGraph (gnodes g ++ nsn :: os) (gedges g ++ map (orphan_edge (nid nsn)) os)) by reflexivity.
+  unfold new_ids, conn_ids in Hnd. simpl in Hnd.
+  assert (HndE : NoDup (ids E)).
+  { rewrite HE. unfold ids; simpl. rewrite map_app. simpl. exact Hnd. }
+  assert (Hns : ~ In (nid nsn) (ids g)) by (apply NoDup_mid in Hnd as (A & _ & _); exact A).
+  assert (Hns_os : ~ In (nid nsn) (map nid os)) by (apply NoDup_mid in Hnd as (_ & B & _); exact B).
+  assert (Hfind : find_node E (nid nsn) = Ok nsn).
+  { apply find_node_unique; auto. rewrite HE; simpl. apply in_app_iff. right. left. reflexivity. }
+  assert (Hadj : adj_rel E (nid nsn) rConnects = map nid os).
+  { unfold adj_rel. rewrite HE. simpl gedges. rewrite flat_map_app.
+    fold (adj_es (gedges g) (nid nsn) rConnects).
+    rewrite (adj_es_untouched _ _ _ (closed_untouched g _ Hcl Hns)). simpl.
+    clear -Hns_os. induction os as [|o os IH]; simpl; auto.
+    unfold other_end; simpl. rewrite N.eqb_refl. simpl. f_equal. apply IH.
+    intro X. apply Hns_os. right; auto. }
+  assert (Hflt : filter (has_cls E cCP) (map nid os) = map nid os).
+  { apply filter_all. intros x Hx. apply in_map_iff in Hx as [o [<- Ho]].
+    unfold has_cls, cls_of. assert (Hin : In o (gnodes E)) by (rewrite HE; simpl; apply in_app_iff; right; right; auto).
+    unfold find_nodes. rewrite (find_nodes_unique (gnodes E) o HndE Hin). rewrite (Hcls o Ho). reflexivity. }
+  unfold remove_ns_with_cps_and_links, bind, ask. simpl sg. fold E.
+  unfold node_cls. rewrite Hfind. rewrite (gd_cls _ _ _ G). simpl.
+  unfold first_neighbor. rewrite Hfind. rewrite Hadj, Hflt.
+  unfold m_delete_node, mutate, g_delete_node. simpl sg. rewrite Hfind.
+  assert (Hraw : remove_node_raw (nid nsn) E = mkGraph (gnodes g ++ os) (gedges g)).
+  { unfold remove_node_raw. rewrite HE. simpl. f_equal.
+    - rewrite filter_app. simpl. rewrite N.eqb_refl. simpl.
+      rewrite filter_nodes_notin by (intros n Hn X; apply Hns; rewrite <- X; apply in_map; auto).
+      f_equal. apply filter_nodes_notin. intros n Hn X. apply Hns_os. rewrite <- X. apply in_map; auto.
+    - rewrite filter_app. rewrite (filter_untouched _ _ (closed_untouched g _ Hcl Hns)).
+      rewrite filter_none; [apply app_nil_r|].
+      intros e He. apply in_map_iff in He as [o [<- Ho]]. unfold touches, orphan_edge; simpl.
+      rewrite N.eqb_refl. reflexivity. }
+  rewrite Hraw. apply remove_isolated; auto.
+  apply NoDup_mid in Hnd as (_ & _ & H). exact H.
+Qed.
+
+(* ---------------------------------------------------------------- the handler restores the pre-state *)
+Lemma rollback_restores g nsn cs os fr e : closed g -> goodO g nsn cs os ->
+  rollback_service (nid nsn) (map k_if cs) e (mkSt (extO g nsn cs os) fr) = (mkSt g fr, Err e).
+Proof.
+  intros Hc. unfold rollback_service. induction cs as [|c cs IH]; intro G.
+  - simpl. unfold bind at 1. unfold ret at 1. unfold bind. rewrite remove_ns_orphans; auto.
   - simpl map. simpl for_each. unfold bind at 1. unfold bind at 1.
-    rewrite (disconnect_head g nsn c cs Hc G fr).
-    specialize (IH (good_tail _ _ _ _ G)). unfold bind at 1 in IH. exact IH.
+    rewrite (disconnect_headO g nsn c cs os fr Hc G).
+    specialize (IH (goodO_tail _ _ _ _ _ G)). unfold bind at 1 in IH. exact IH.
 Qed.
